@@ -1,6 +1,7 @@
 import TomlVerif.Driver.C10
 import TomlVerif.Driver.C12
 import TomlVerif.Driver.C11
+import TomlVerif.Driver.Canon
 
 open TomlVerif
 
@@ -9,6 +10,8 @@ def dispatch (mode : String) (line : String) : String :=
   | "c10" => Driver.c10 line
   | "c12" => Driver.c12 line
   | "c11" => Driver.c11 line
+  | "doc" => Driver.docLine line
+  | "val" => Driver.valLine line
   | _ => "bad-mode"
 
 partial def loop (mode : String) (h : IO.FS.Stream) (out : IO.FS.Stream) : IO Unit := do
